@@ -162,9 +162,11 @@ fn with_probes(m: BoxedStrategy<ModelCase>) -> BoxedStrategy<Case> {
 }
 
 fn contains(lo: f64, hi: f64, v: &Big) -> bool {
-    // the published statement is "contains"; a bound that is tighter than the truth by less than
-    // 1e-9 relative is below every solver tolerance and is not reported (see DESIGN.md §5.7 R)
-    let t = big(1e-9) * (v.abs() + big(1.0));
+    // the published statement is "contains". Constants are folded in rounded f64 before the
+    // analysis sees them, so a bound can sit a few units in the last place inside the exact one
+    // (with allowance 0 one model in 1000 fails on the unchanged tree, with 1e-14 none in 120 000);
+    // the allowance is 1e-11 relative, a hundred times below the analysis' own 1e-9 tolerance
+    let t = big(std::env::var("VERIF_C07_TOL").ok().and_then(|s| s.parse::<f64>().ok()).unwrap_or(1e-11)) * (v.abs() + big(1.0));
     let lo_ok = lo == f64::NEG_INFINITY || (lo.is_finite() && big(lo) <= v + &t);
     let hi_ok = hi == f64::INFINITY || (hi.is_finite() && big(hi) >= v - &t);
     lo_ok && hi_ok
@@ -199,7 +201,7 @@ impl Prop for C07 {
         "C01 models plus propagation-specific models (chains and cycles a*x rel b*y + k over 2-5 variables with coefficients 1,2,3,7,0.1,1.9,1/3 and negative ones, and the same shapes with coefficients from 1e-9 to 1e9 (ill-conditioned propagation), |x-y| and max/min/division links, infinite and integer declared ranges, Boolean variables, contradictory rows, and the slow two-variable cycle x >= y + d, y >= x + d in boxes up to 1e5 wide that exhausts the 10000-step limit). (1) at every source-feasible point of the test set every interval returned by the analysis hook and every published domain of the compiled model contains the variable's value; (2) for generated probe expressions and points of the derived box (the test points that lie inside it) the derived enclosure contains the exact value, is never NaN and has lower <= upper; (3) the same holds when the step limit was reached or a contradiction was detected. Non-trivial = some derived interval strictly tighter than declared and a feasible point within 1/16 of a derived bound, or the step-limit / contradiction flag set. Distinct = distinct model text.".into()
     }
     fn assumptions(&self) -> Vec<String> {
-        vec!["containment is checked with a 1e-9 relative allowance (stated weakening of the literal 'contains')".into()]
+        vec!["containment is checked with a 1e-11 relative allowance (stated weakening of the literal 'contains': rooc folds constants in rounded f64 before the analysis, which moves bounds by units in the last place)".into()]
     }
     fn check(&self, case: &Case) -> Outcome {
         let m = &case.model;
